@@ -9,7 +9,7 @@ The connection model joined to the byte stream and to the clock (C10):
   `FrameHeaderParseError`), and otherwise waits for more bytes.
 * `kaTurn`  ← `keepaliver` (1801-1878) under an explicit clock (ms): `interval.tick()` with
   `MissedTickBehavior::Delay`, the keep-alive request is an ordinary `send_request`, `tokio::time::timeout`
-  around it.
+  around it, the hint arm (`keepalive_hint.notified()` → `interval.reset()` → probe now).
 -/
 import ScyllaVerif.Model.StreamMap
 import ScyllaVerif.Model.Conn
@@ -55,6 +55,9 @@ structure KaSt where
   clock : Nat := 0
   next : Nat                     -- when `interval.tick()` completes next
   pending : Option (Nat × Nat) := none   -- (request id, deadline) of the keep-alive request in flight
+  hint : Bool := false           -- the stored permit of `keepalive_hint` (`Connection::trigger_keepalive`, called by
+                                 -- the pool on a STATUS_CHANGE DOWN event; `Notify::notify_one` stores ONE permit)
+  full : Bool := false           -- the submit channel has no free slot right now (the keep-alive request parks)
 
 /-- One turn of the keepaliver task. -/
 def kaTurn (k : KaSt) : KaSt :=
@@ -72,11 +75,19 @@ def kaTurn (k : KaSt) : KaSt :=
         { k with c := step (step k.c (.cancel r)) (.break_ .keepaliveTimeout), pending := none }
       else k
   | none =>
-    if k.clock ≥ k.next then
+    -- the keep-alive request is an ordinary `send_request`: it takes a slot of the submit channel, or parks
+    let submitEv : Ev := if k.full then .submitFull else .submit
+    if k.hint then
+      -- `select!`: the hint arm — `interval.reset()`: the next periodic probe is a full interval away — and a probe
+      -- is issued at once. (If a tick is due at the same time `select!` picks one of the two arms at random; the
+      -- other stays ready for the next iteration. The model takes the hint arm.)
+      { k with c := step k.c submitEv, pending := some (k.c.nextReq, k.clock + k.timeout),
+               next := k.clock + k.interval, hint := false }
+    else if k.clock ≥ k.next then
       let r := k.c.nextReq
       -- `MissedTickBehavior::Delay`: a tick more than 5 ms late re-bases the schedule
       let next := if k.clock > k.next + 5 then k.clock + k.interval else k.next + k.interval
-      { k with c := step k.c .submit, pending := some (r, k.clock + k.timeout), next := next }
+      { k with c := step k.c submitEv, pending := some (r, k.clock + k.timeout), next := next }
     else k
 
 end ScyllaVerif.ConnIO
